@@ -95,10 +95,27 @@ def check(col, prog, tier, profile, fixture=None):
     col.rule("M2" + sfx, "operator families, Div = Mul by inv, pow = binary exponentiation over the argument via MulAssign, IO and formatting go through v / new", floor=11)
 
     targets = {}
+    modes = {}
     for nm in ("new", "ZERO", "ONE"):
         targets[nm] = util.need_body(crate, "Modular::<M>::%s" % nm)
-    for tr, nm in (("Add", "add"), ("Sub", "sub"), ("Mul", "mul"), ("Neg", "neg")):
-        targets[nm] = util.need_body(crate, "<Modular<M> as std::ops::%s>::%s" % (tr, nm))
+        modes[nm] = "value"
+    assign_of = {}
+    for tr, nm in (("Add", "add"), ("Sub", "sub"), ("Mul", "mul")):
+        vb = util.need_body(crate, "<Modular<M> as std::ops::%s>::%s" % (tr, nm))
+        ab = util.need_body(crate, "<Modular<M> as std::ops::%sAssign>::%s_assign" % (tr, nm))
+        assign_of[nm] = ab
+        # the arithmetic lives in the binary operator (and `x op= y` is `*x = *x op y`), or in the assigning
+        # operator (and `x op y` is `{ x op= y; x }`): prove whichever does not simply call the other
+        v_calls_a = any(util.callee_key(t) == ab.key for bb, t in vb.calls())
+        a_calls_v = any(util.callee_key(t) == vb.key for bb, t in ab.calls())
+        if v_calls_a and not a_calls_v:
+            targets[nm], modes[nm] = ab, "assign"
+        else:
+            targets[nm], modes[nm] = vb, "value"
+    targets["neg"] = util.need_body(crate, "<Modular<M> as std::ops::Neg>::neg")
+    modes["neg"] = "value"
+    helpers = util.private_helpers(crate, "Modular", exclude=list(targets.values()))
+    A = util.analyser(helpers)
     mdb = util.need_body(crate, "Modular::<M>::md")
     Imd = util.analyse(mdb)
     if not all(util.ret_term(st) == M for st in Imd.final_states):
@@ -109,8 +126,13 @@ def check(col, prog, tier, profile, fixture=None):
     summ = _summaries(crate)
 
     for nm, b in targets.items():
-        I = util.analyse(b)
+        I = A(b)
         mp = _modular_params(I, b)
+        selfp = ("deref", ("param", 1, I.names.get(1)))
+        if modes[nm] == "assign":
+            # (&mut self, rhs): a = the representative stored in *self on entry
+            mp = dict(mp)
+            mp[1] = ("load", ("m0",), ("field", selfp, 0))
         base = {t: (B(0), B(-1, 1)) for t in mp.values()}
         for t in mp.values():
             I.tys[t] = "u32"
@@ -136,6 +158,9 @@ def check(col, prog, tier, profile, fixture=None):
             # facts  x == 0  give x = 0 on this path (in the value and in the specification)
             for f in st.facts:
                 t = f[1]
+                if f[0] == "eq" and f[2] == 0 and t in cb and not isinstance(f[2], bool):
+                    t = ("bin", "Eq", t, mk_int(0))
+                    f = ("eq", t, 1)
                 if f[0] == "eq" and f[2] == 1 and isinstance(t, tuple) and t[0] == "bin" and t[1] == "Eq" and t[3] == mk_int(0) and t[2] in cb:
                     v0 = cb[t[2]].single_var()
                     if v0 is not None:
@@ -145,7 +170,16 @@ def check(col, prog, tier, profile, fixture=None):
             ret = util.ret_term(st)
             pathkey = "%s|path%d" % (fk(b), n)
             # ---- (i) representation invariant + (v) congruence
-            if ret[0] == "agg" and isinstance(ret[1], tuple) and ret[1][0] == "adt":
+            if modes[nm] == "assign":
+                sts = [e for e in st.event_list() if e.kind == "store" and (e.place == ("field", selfp, 0) or e.place == selfp)]
+                if not sts:
+                    val = mp[1]
+                elif sts[-1].place == selfp:
+                    w = sts[-1].val
+                    val = w[2][0] if (w[0] == "agg" and isinstance(w[1], tuple) and w[1][0] == "adt") else w
+                else:
+                    val = sts[-1].val
+            elif ret[0] == "agg" and isinstance(ret[1], tuple) and ret[1][0] == "adt":
                 val = ret[2][0]
             elif ret[0] == "call" and str(ret[1]).endswith("Modular::<M>::new"):
                 val = ret
@@ -223,45 +257,130 @@ def check(col, prog, tier, profile, fixture=None):
                 else:
                     col.violation("M1" + sfx, "%s|lossy-cast" % fk(b), b.loc(), "%s: %s is NOT guaranteed: the value is truncated/reinterpreted for some M or operand" % (b.path, desc))
 
-    _families(col, crate, adt, targets, sfx)
+    _families(col, crate, adt, targets, sfx, modes, assign_of, A)
 
 
-def _families(col, crate, adt, targets, sfx):
+def _pow_bitscan(I, head, res_l, mulas, powb):
+    d = ("param", 2, I.names.get(2))
+    ph = lambda l: ("phi", head, l)
+    entries = I.loop_entry.get(head, [{}])
+    for en in entries:
+        r0 = en.get(res_l)
+        if not (r0 is not None and (r0[0] == "assoc" and r0[2] == "ONE" or (r0[0] == "agg" and r0[2] == (mk_int(1),)))):
+            return False, "the accumulator does not start at ONE (%s)" % tstr(r0)
+    base_l = [l for l, v in entries[0].items() if isinstance(v, tuple) and v and v[0] == "load" and v[2] == ("deref", ("param", 1, I.names.get(1)))]
+    if len(base_l) != 1:
+        return False, "the running square does not start at *self"
+    a_l = base_l[0]
+    backs = I.backedge_states.get(head, [])
+    if not backs:
+        return False, "no loop iterations"
+    for st in backs:
+        bit = None
+        setp = None
+        bound = None
+        for f in st.facts:
+            t = f[1]
+            if f[0] == "eq" and isinstance(t, tuple) and t[0] == "bin" and t[1] in ("Ne", "Eq") and t[3] in (mk_int(0), mk_int(1)) and isinstance(t[2], tuple) and t[2][0] == "bin" and t[2][1] == "BitAnd" and t[2][3] == mk_int(1):
+                sh = t[2][2]
+                if sh[0] == "bin" and sh[1] == "Shr" and sh[2] == d and sh[3][0] == "elem":
+                    bit = sh[3]
+                    is_set = (t[1] == "Ne") == (t[3] == mk_int(0))
+                    setp = is_set == bool(f[2])
+        if bit is None:
+            return False, "the loop does not test bit `(d >> i) & 1` of the argument exponent"
+        lo, hi = bit[2], bit[3]
+        full = hi == mk_int(64)
+        blen = hi[0] == "bin" and hi[1] == "Sub" and hi[2] == mk_int(64) and hi[3][0] == "call" and str(hi[3][1]).endswith("leading_zeros") and hi[3][2][0] == d
+        if lo != mk_int(0) or not (full or blen):
+            return False, "the bit index does not run over 0..bit_length(d) (range is %s..%s)" % (tstr(lo), tstr(hi))
+        evs = [e for e in st.event_list() if e.kind == "call" and (e.fn.get("resolved") or e.fn).get("def") == mulas.key]
+        want = ([(("ref", ("local", res_l)), ph(a_l))] if setp else []) + [(("ref", ("local", a_l)), ph(a_l))]
+        got = [(e.args[0], e.args[1]) for e in evs]
+        if got != want:
+            return False, "loop body is not `if bit set { res *= a }; a *= a` (bit set=%s, multiplications=%s)" % (setp, [(tstr(x), tstr(y)) for x, y in got])
+    return True, ""
+
+
+def _families(col, crate, adt, targets, sfx, modes=None, assign_of=None, A=None):
+    modes = modes or {}
+    assign_of = assign_of or {}
+    A = A or util.analyse
     fk = util.fkey
     pairs = {"AddAssign": ("add_assign", "add"), "SubAssign": ("sub_assign", "sub"), "MulAssign": ("mul_assign", "mul"), "DivAssign": ("div_assign", "div")}
     divb = util.need_body(crate, "<Modular<M> as std::ops::Div>::div")
     invb = util.need_body(crate, "Modular::<M>::inv")
+    mulas_b = util.need_body(crate, "<Modular<M> as std::ops::MulAssign>::mul_assign")
+
+    def returns_self_after(I, st, call):
+        """`{ self op= rhs; self }`: the by-value receiver local is passed by &mut and then returned"""
+        ret = util.ret_term(st)
+        return call.args[0] == ("ref", ("local", 1)) and call.args[1] == ("param", 2, I.names.get(2)) and ret[0] == "out" and ret[2] == 1 and ret[1] == call.extra.get("uid")
+
     for tr, (am, om) in pairs.items():
-        b = util.need_body(crate, "<Modular<M> as std::ops::%s>::%s" % (tr, am))
-        want = targets.get(om) or divb
-        I = util.analyse(b)
+        if om == "div":
+            continue
+        ab = util.need_body(crate, "<Modular<M> as std::ops::%s>::%s" % (tr, am))
+        vb = util.need_body(crate, "<Modular<M> as std::ops::%s>::%s" % (tr[:-6], om))
+        if modes.get(om) == "assign":
+            b, want = vb, ab
+        else:
+            b, want = ab, vb
+        I = A(b)
         selfp = ("deref", ("param", 1, I.names.get(1)))
         for st in I.final_states:
             calls = [e for e in st.event_list() if e.kind == "call"]
-            stores = [e for e in st.event_list() if e.kind == "store" and e.place == selfp]
             ok = len(calls) == 1 and (calls[0].fn.get("resolved") or calls[0].fn).get("def") == want.key
-            ok = ok and calls[0].args == (("load", ("m0",), selfp), ("param", 2, I.names.get(2))) and len(stores) == 1 and stores[0].val == calls[0].res
+            if ok and b is ab:
+                stores = [e for e in st.event_list() if e.kind == "store" and e.place == selfp]
+                ok = calls[0].args == (("load", ("m0",), selfp), ("param", 2, I.names.get(2))) and len(stores) == 1 and stores[0].val == calls[0].res
+            elif ok:
+                ok = returns_self_after(I, st, calls[0])
             key = "%s|delegates" % fk(b)
             if ok:
-                col.ok("M2" + sfx, b.loc(), key, "*self = *self %s rhs" % om)
+                col.ok("M2" + sfx, b.loc(), key, "*self = *self %s rhs" % om if b is ab else "{ self %s= rhs; self }" % om)
                 col.obligation(True)
             else:
-                col.violation("M2" + sfx, key, b.loc(), "%s must be *self = *self %s rhs (calls: %s)" % (b.path, om, [c.callee for c in calls]))
+                col.violation("M2" + sfx, key, b.loc(), "%s must be %s (calls: %s)" % (b.path, "*self = *self %s rhs" % om if b is ab else "self %s= rhs followed by returning self" % om, [c.callee for c in calls]))
                 col.obligation(False)
-    # Div = Mul by inverse
-    I = util.analyse(divb)
+    # Div = Mul by inverse, in either direction
+    dab = util.need_body(crate, "<Modular<M> as std::ops::DivAssign>::div_assign")
+    d_calls_a = any(util.callee_key(t) == dab.key for bb, t in divb.calls())
+    arith, deleg = (dab, divb) if d_calls_a else (divb, dab)
+    I = A(arith)
     for st in I.final_states:
         ret = util.ret_term(st)
         calls = [e for e in st.event_list() if e.kind == "call"]
         inv = [e for e in calls if (e.fn.get("resolved") or e.fn).get("def") == invb.key]
-        mul = [e for e in calls if (e.fn.get("resolved") or e.fn).get("def") == targets["mul"].key]
-        ok = len(inv) == 1 and len(mul) == 1 and mul[0].args[0] == ("param", 1, I.names.get(1)) and mul[0].args[1] == inv[0].res and ret == mul[0].res
-        ok = ok and inv[0].extra["argvals"][0] == ("param", 2, I.names.get(2))
+        ok = len(inv) == 1 and inv[0].extra["argvals"][0] == ("param", 2, I.names.get(2))
+        if arith is divb:
+            mul = [e for e in calls if (e.fn.get("resolved") or e.fn).get("def") == targets["mul"].key or (e.extra.get("name") == "mul" and (e.extra.get("trait") or "").endswith("ops::Mul"))]
+            ok = ok and len(mul) == 1 and mul[0].args[0] == ("param", 1, I.names.get(1)) and mul[0].args[1] == inv[0].res and ret == mul[0].res
+        else:
+            mul = [e for e in calls if (e.fn.get("resolved") or e.fn).get("def") == mulas_b.key]
+            ok = ok and len(mul) == 1 and mul[0].args[0] in (("param", 1, I.names.get(1)), ("ref", ("deref", ("param", 1, I.names.get(1))))) and mul[0].args[1] == inv[0].res
         if ok:
-            col.ok("M2" + sfx, divb.loc(), "%s|mul-by-inverse" % fk(divb), "self * rhs.inv()")
+            col.ok("M2" + sfx, arith.loc(), "%s|mul-by-inverse" % fk(divb), "self * rhs.inv()")
             col.obligation(True)
         else:
-            col.violation("M2" + sfx, "%s|mul-by-inverse" % fk(divb), divb.loc(), "Div must be self * rhs.inv()")
+            col.violation("M2" + sfx, "%s|mul-by-inverse" % fk(divb), arith.loc(), "division must be multiplication by rhs.inv()")
+            col.obligation(False)
+    I = A(deleg)
+    selfp = ("deref", ("param", 1, I.names.get(1)))
+    for st in I.final_states:
+        calls = [e for e in st.event_list() if e.kind == "call"]
+        ok = len(calls) == 1 and (calls[0].fn.get("resolved") or calls[0].fn).get("def") == arith.key
+        if ok and deleg is dab:
+            stores = [e for e in st.event_list() if e.kind == "store" and e.place == selfp]
+            ok = calls[0].args == (("load", ("m0",), selfp), ("param", 2, I.names.get(2))) and len(stores) == 1 and stores[0].val == calls[0].res
+        elif ok:
+            ok = returns_self_after(I, st, calls[0])
+        key = "%s|delegates" % fk(deleg)
+        if ok:
+            col.ok("M2" + sfx, deleg.loc(), key, "forwards to %s" % arith.name)
+            col.obligation(True)
+        else:
+            col.violation("M2" + sfx, key, deleg.loc(), "%s must forward to %s on the same operands (calls: %s)" % (deleg.path, arith.path, [c.callee for c in calls]))
             col.obligation(False)
     # inv returns through new
     I = util.analyse(invb)
@@ -308,7 +427,11 @@ def _families(col, crate, adt, targets, sfx):
             r = util.ret_term(st)
             if r[0] == "phi":
                 res_l = r[2]
-        if exp_l is None or res_l is None:
+        if exp_l is None and res_l is not None:
+            # bit-scan form: for bit in 0..K { if (d >> bit) & 1 != 0 { res *= a }; a *= a } with d the argument
+            # itself and K its bit length (64 - d.leading_zeros()) or the full width 64
+            ok3, why3 = _pow_bitscan(I, head, res_l, mulas, powb)
+        elif exp_l is None or res_l is None:
             ok3, why3 = False, "cannot identify the exponent / result loop variables"
         else:
             entries = I.loop_entry.get(head, [{}])
@@ -362,12 +485,19 @@ def _families(col, crate, adt, targets, sfx):
             col.obligation(False)
     for path, what in (("<Modular<M> as rlib_io::Writable>::write", "write"), ("<Modular<M> as std::fmt::Display>::fmt", "fmt"), ("<Modular<M> as std::fmt::Debug>::fmt", "fmt")):
         b = util.need_body(crate, path)
-        I = util.analyse(b)
+        # accessors of the representative (`inner()`) are inlined
+        acc = [m for m in util.methods_of(crate, "Modular") if not util.self_recursive(m) and m.arg_count == 1 and m.locals[0]["ty"] == "u32" and len(m.blocks) <= 2]
+        I = util.analyser(acc)(b)
         selfp = ("deref", ("param", 1, I.names.get(1)))
+        v0 = ("load", ("m0",), ("field", selfp, 0))
         for st in I.final_states:
             calls = [e for e in st.event_list() if e.kind == "call" and e.extra.get("name") == what]
-            ok = len(calls) == 1 and calls[0].args[0] == ("ref", ("field", selfp, 0)) and (calls[0].fn.get("self_ty") or (calls[0].fn.get("args") or [""])[0]) == "u32"
-            others = [e for e in st.event_list() if e.kind == "call" and e not in calls]
+            ok = len(calls) == 1 and (calls[0].fn.get("self_ty") or (calls[0].fn.get("args") or [""])[0]) == "u32"
+            if ok:
+                a0 = calls[0].args[0]
+                av = (calls[0].extra.get("argvals") or [None])[0]
+                ok = a0 == ("ref", ("field", selfp, 0)) or av == v0 or (a0[0] == "ref" and a0[1][0] == "constval" and a0[1][1] == v0)
+            others = [e for e in st.event_list() if e.kind == "call" and e not in calls and not e.extra.get("inlined")]
             ok = ok and not others
             key = "%s|prints-v" % fk(b)
             if ok:
